@@ -385,6 +385,7 @@ package rac
 //@   prop C15
 //@   ensures implies(result == nil, r.ReadSeeker != nil && r.CompressedSize >= 32 && unchanged(r.err))
 //@   ensures implies(result != nil, r.err != nil)
+//@   ensures[noeof] implies(old(r.err) != io.EOF, result != io.EOF && r.err != io.EOF)
 //@   modifies r.err
 
 //@ func (*ChunkReader).load
@@ -392,6 +393,7 @@ package rac
 //@   requires r.readSeeker != nil
 //@   ensures implies(result != nil, r.err != nil)
 //@   ensures implies(result == nil, unchanged(r.err))
+//@   ensures[noeof] implies(old(r.err) != io.EOF, result != io.EOF && r.err != io.EOF)
 //@   modifies r.err, mem(r.currNode)
 
 //@ func (*ChunkReader).loadAndValidate
@@ -399,6 +401,7 @@ package rac
 //@   requires r.readSeeker != nil && 0 <= childCBias && childCBias <= 2*p48() && 32 <= r.CompressedSize && r.CompressedSize < p48()
 //@   ensures implies(result != nil, r.err != nil)
 //@   ensures implies(result == nil, unchanged(r.err) && V(r.currNode) && childCBias + cptr(r.currNode, ar(r.currNode)) <= parentCOffMax && dptr(r.currNode, ar(r.currNode)) == childDSize)
+//@   ensures[noeof] implies(old(r.err) != io.EOF, result != io.EOF && r.err != io.EOF)
 //@   modifies r.err, mem(r.currNode)
 
 //@ func (*ChunkReader).tryRootNode
@@ -407,6 +410,7 @@ package rac
 //@   ensures implies(ioErr != nil, r.err != nil && !found)
 //@   ensures implies(ioErr == nil, unchanged(r.err))
 //@   ensures implies(found, ioErr == nil && V(r.currNode) && r.needToResolveSeekPosition && r.rootNodeArity != 0 && 0 <= r.rootNodeCOffset && r.CompressedSize < p48() && r.decompressedSize == dptr(r.currNode, ar(r.currNode)) && 0 <= r.decompressedSize && r.decompressedSize < p48())
+//@   ensures[noeof] implies(old(r.err) != io.EOF, ioErr != io.EOF && r.err != io.EOF)
 //@   modifies r.err, mem(r.currNode), r.needToResolveSeekPosition, r.rootNodeCOffset, r.rootNodeArity, r.decompressedSize
 
 //@ func (*ChunkReader).findRootNode
@@ -414,6 +418,7 @@ package rac
 //@   requires r.readSeeker != nil && r.CompressedSize >= 32
 //@   ensures[sticky] implies(result != nil, r.err != nil)
 //@   ensures implies(result == nil, unchanged(r.err) && V(r.currNode) && r.needToResolveSeekPosition && r.rootNodeArity != 0 && 0 <= r.rootNodeCOffset && r.CompressedSize < p48() && 0 <= r.decompressedSize && r.decompressedSize < p48())
+//@   ensures[noeof] implies(old(r.err) != io.EOF, result != io.EOF && r.err != io.EOF)
 //@   modifies r.err, mem(r.currNode), r.needToResolveSeekPosition, r.rootNodeCOffset, r.rootNodeArity, r.decompressedSize
 
 //@ func (*ChunkReader).initialize
@@ -423,6 +428,7 @@ package rac
 //@   ensures implies(result != nil, r.err != nil)
 //@   ensures implies(old(r.initialized) && old(r.err) == nil, unchanged(r.needToResolveSeekPosition) && unchanged(r.seekPosition) && unchanged(r.nextChunk) && unchanged(r.currNodeCBias) && unchanged(r.currNodeDBias) && unchanged(mem(r.currNode)) && unchanged(r.decompressedSize))
 //@   ensures unchanged(r.seekPosition)
+//@   ensures[noeof] implies(old(r.err) != io.EOF, result != io.EOF && r.err != io.EOF)
 //@   modifies r.err, r.initialized, r.readSeeker, mem(r.currNode), r.needToResolveSeekPosition, r.rootNodeCOffset, r.rootNodeArity, r.decompressedSize
 
 //@ func (*ChunkReader).resolveSeekPosition
@@ -433,6 +439,7 @@ package rac
 //@   ensures implies(result == nil, 0 <= r.nextChunk && int(r.nextChunk) < ar(r.currNode))
 //@   ensures implies(result == nil, r.currNodeDBias + dptr(r.currNode, int(r.nextChunk)) <= r.seekPosition && r.seekPosition < r.currNodeDBias + dptr(r.currNode, int(r.nextChunk) + 1))
 //@   ensures implies(result == nil, ttag(r.currNode, int(r.nextChunk)) != 0xFE)
+//@   ensures[noeof] implies(old(r.err) != io.EOF, result != io.EOF && r.err != io.EOF)
 //@   modifies r.err, mem(r.currNode), r.nextChunk, r.currNodeCBias, r.currNodeDBias
 //@   assume@after load#1 implies(result == nil, V(r.currNode) && cptr(r.currNode, ar(r.currNode)) == r.CompressedSize && dptr(r.currNode, ar(r.currNode)) == r.decompressedSize)
 //@   loop 1 invariant V(r.currNode)
@@ -446,7 +453,8 @@ package rac
 //@   prop C15 C14
 //@   requires 0 <= r.seekPosition && implies(r.initialized && r.err == nil, crInv(r))
 //@   ensures implies(result1 == nil, r.err == nil && r.initialized && crInv(r))
-//@   ensures[drange] implies(result1 == nil, result0.DRange[0] < result0.DRange[1] && result0.DRange[0] <= old(r.seekPosition) && old(r.seekPosition) < result0.DRange[1] && result0.DRange[1] <= r.decompressedSize && r.seekPosition == result0.DRange[1])
+//@   ensures[inv] implies(r.initialized && r.err == nil, crInv(r)) && 0 <= r.seekPosition && implies(result1 != nil && result1 != io.EOF, r.err != nil) && implies(result1 == io.EOF && old(r.err) == nil, r.err == nil) && implies(result1 != nil, unchanged(r.seekPosition)) && implies(old(r.initialized) && old(r.err) == nil, unchanged(r.decompressedSize))
+//@   ensures[drange] implies(result1 == nil, 0 <= result0.DRange[0] && result0.DRange[0] < result0.DRange[1] && result0.DRange[0] <= old(r.seekPosition) && old(r.seekPosition) < result0.DRange[1] && result0.DRange[1] <= r.decompressedSize && r.seekPosition == result0.DRange[1])
 //@   ensures[cprimary] implies(result1 == nil, 0 <= result0.CPrimary[0] && result0.CPrimary[0] <= result0.CPrimary[1] && result0.CPrimary[1] <= r.CompressedSize)
 //@   ensures[leaf] implies(result1 == nil, result0.TTag != 0xFE && result0.TTag != 0xFD)
 //@   modifies r.err, r.initialized, r.readSeeker, mem(r.currNode), r.needToResolveSeekPosition, r.rootNodeCOffset, r.rootNodeArity, r.decompressedSize, r.seekPosition, r.nextChunk, r.currNodeCBias, r.currNodeDBias
@@ -464,6 +472,7 @@ package rac
 //@   ensures implies(result == nil, r.err == nil && r.initialized && crInv(r) && r.needToResolveSeekPosition && r.seekPosition == dSpaceOffset && dSpaceOffset >= 0)
 //@   ensures implies(result != nil, r.err != nil) && 0 <= r.seekPosition
 //@   ensures implies(old(r.initialized) && old(r.err) == nil, unchanged(r.decompressedSize))
+//@   ensures[noeof] implies(old(r.err) != io.EOF, result != io.EOF && r.err != io.EOF)
 //@   modifies r.err, r.initialized, r.readSeeker, mem(r.currNode), r.needToResolveSeekPosition, r.rootNodeCOffset, r.rootNodeArity, r.decompressedSize, r.seekPosition
 
 //@ func (*concReader).ready
@@ -501,6 +510,7 @@ package rac
 //@   requires rOK(r)
 //@   ensures rOK(r) && unchanged(r.pos) && unchanged(r.Concurrency) && implies(result == nil, r.chunkReader.initialized && r.chunkReader.err == nil)
 //@   ensures[idle] implies(old(r.Concurrency) <= 1, unchanged(r.concReader.stopc))
+//@   ensures[frame] unchanged(r.dRange[0]) && unchanged(r.dRange[1]) && unchanged(r.decompressor) && unchanged(r.inImplicitZeroes) && unchanged(r.chunkReader.seekPosition) && unchanged(r.CodecReaders) && unchanged(mem(r.CodecReaders)) && implies(result != nil, r.err == result)
 //@   ensures[again] implies(old(r.err) == nil && old(r.chunkReader.initialized), result == nil && unchanged(r.posLimit) && unchanged(r.concReader.stopc) && unchanged(r.chunkReader.decompressedSize))
 //@   ensures[first] implies(result == nil && !old(r.chunkReader.initialized), r.posLimit == r.chunkReader.decompressedSize)
 //@   ensures[sticky] implies(old(r.err) != nil, result == old(r.err))
@@ -523,6 +533,98 @@ package rac
 //@   ensures[order] implies(low > high, result != nil)
 //@   ensures[range] implies(old(r.Concurrency) <= 1 && isnil(old(r.concReader.stopc)) && result == nil, r.pos == low && r.posLimit == min(high, r.chunkReader.decompressedSize))
 //@   modifies *r, mem(r.chunkReader.currNode)
+
+// ---- reader.go: the sequential Reader.Read state machine ----
+// State A: no decompressor, not in implicit zeroes. State B: decompressor set.
+// State C: serving the implicit zeroes after a chunk's explicit data.
+// "Invariant: r.dRange[0] <= r.pos <= r.dRange[1]"; the chunk reader's seek
+// position is the end of the current chunk; in state A the position is that end.
+//@ spec seqInv(r *Reader) bool = 0 <= r.dRange[0] && r.dRange[0] <= r.pos && r.pos <= r.dRange[1] && r.chunkReader.seekPosition == r.dRange[1] && implies(r.decompressor == nil && !r.inImplicitZeroes, r.pos == r.dRange[1]) && !(r.decompressor != nil && r.inImplicitZeroes)
+
+// The CodecReader interface (assumed; obligations on codec packages).
+//@ func iface rac.CodecReader.Accepts
+//@   trusted_contract rac.CodecReader.Accepts: touches nothing the Reader can see
+//@   pure
+
+//@ func iface rac.CodecReader.MakeDecompressor
+//@   trusted_contract rac.CodecReader.MakeDecompressor: touches nothing the Reader can see; on success the decompressor is non-nil
+//@   pure
+//@   ensures implies(result1 == nil, result0 != nil)
+
+//@ func (Codec).name
+//@   prop C14
+//@   trusted builds a string for an error message; no effect on the modelled state
+//@   pure
+
+//@ func (*zeroesReader).Read
+//@   prop C14
+//@   requires z != nil && *z >= 0
+//@   ensures 0 <= result0 && result0 <= len(p) && int64(*z) == old(int64(*z)) - int64(result0) && *z >= 0 && (result1 == nil || result1 == io.EOF)
+//@   ensures[zeroes] forall(k, 0, result0, p[k] == 0)
+//@   modifies *z, mem(p)
+//@   loop 1 invariant -1 <= rangeindex && rangeindex < len(p) && forall(k, 0, rangeindex + 1, p[k] == 0)
+//@   loop 1 decreases len(p) - rangeindex
+
+//@ func (*Reader).transitionFromStateBToStateC
+//@   prop C14
+//@   requires r != nil
+//@   ensures implies(result == nil, r.decompressor == nil && r.inImplicitZeroes && unchanged(r.err)) && implies(result != nil, r.err == result && result != io.EOF && result != errInternalInconsistentPosition && unchanged(r.decompressor) && unchanged(r.inImplicitZeroes))
+//@   modifies r.err, r.decompressor, r.inImplicitZeroes
+
+// readImplicitZeroes: serves min(len(p), what is left of the chunk) zero bytes.
+//@ func (*Reader).readImplicitZeroes
+//@   prop C14
+//@   requires r != nil && 0 <= r.dRange[0] && r.dRange[0] <= r.pos && r.pos <= r.dRange[1] && r.inImplicitZeroes
+//@   ensures result1 == nil && 0 <= result0 && result0 <= len(p) && r.pos == old(r.pos) + int64(result0) && r.dRange[0] == r.pos && r.dRange[1] == old(r.dRange[1]) && r.pos <= r.dRange[1]
+//@   ensures[state] r.inImplicitZeroes == (r.pos < r.dRange[1]) && implies(len(p) > 0 && old(r.pos) < r.dRange[1], result0 > 0)
+//@   ensures[zeroes] forall(k, 0, result0, p[k] == 0)
+//@   modifies r.pos, r.dRange, r.inImplicitZeroes, mem(p)
+//@   loop 1 invariant -1 <= rangeindex && rangeindex < len(p) && forall(k, 0, rangeindex + 1, p[k] == 0)
+//@   loop 1 decreases len(p) - rangeindex
+
+// readExplicitData: discards up to r.pos, then delegates; never delivers more than
+// the chunk's DRange holds ("chunk too large" otherwise).
+//@ func (*Reader).readExplicitData
+//@   prop C14
+//@   requires r != nil && r.decompressor != nil && !r.inImplicitZeroes && 0 <= r.dRange[0] && r.dRange[0] <= r.pos && r.pos <= r.dRange[1]
+//@   ensures 0 <= result0 && result0 <= len(p) && r.pos == old(r.pos) + int64(result0) && 0 <= r.dRange[0] && r.dRange[0] <= r.pos && r.pos <= r.dRange[1] && r.dRange[1] == old(r.dRange[1]) && !(r.decompressor != nil && r.inImplicitZeroes)
+//@   ensures[state] implies(result1 == nil, (r.decompressor != nil && !r.inImplicitZeroes) || (r.decompressor == nil && r.inImplicitZeroes))
+//@   ensures[stored] implies(result1 != nil, r.err == result1 && result1 != errInternalInconsistentPosition)
+//@   modifies r.pos, r.dRange, r.err, r.decompressor, r.inImplicitZeroes, mem(p)
+//@   loop 1 invariant r.decompressor != nil && !r.inImplicitZeroes && 0 <= r.dRange[0] && r.dRange[0] <= r.pos && r.pos <= r.dRange[1] && unchanged(r.pos) && r.dRange[1] == old(r.dRange[1]) && unchanged(r.err)
+
+// nextChunk: state A to state B, for the chunk that contains r.pos.
+//@ func (*Reader).nextChunk
+//@   prop C14
+//@   requires rOK(r) && r.chunkReader.initialized && r.chunkReader.err == nil && r.chunkReader.seekPosition == r.pos && r.decompressor == nil && !r.inImplicitZeroes && forall(k, 0, len(r.CodecReaders), r.CodecReaders[k] != nil)
+//@   assume@after NextChunk#1 result1 != errInternalInconsistentPosition
+//@   ensures rOK(r) && unchanged(r.pos) && unchanged(r.posLimit) && unchanged(r.concReader.stopc) && unchanged(r.CodecReaders) && unchanged(mem(r.CodecReaders)) && unchanged(r.Concurrency)
+//@   ensures[stateB] implies(result == nil, r.chunkReader.initialized && r.chunkReader.err == nil && r.decompressor != nil && !r.inImplicitZeroes && 0 <= r.dRange[0] && r.dRange[0] <= r.pos && r.pos < r.dRange[1] && r.chunkReader.seekPosition == r.dRange[1])
+//@   ensures[stateA] implies(result != nil, unchanged(r.chunkReader.seekPosition) && unchanged(r.decompressor) && unchanged(r.inImplicitZeroes) && unchanged(r.dRange[0]) && unchanged(r.dRange[1]) && (result == io.EOF || r.err == result) && result != errInternalInconsistentPosition)
+//@   modifies *r, mem(r.chunkReader.currNode)
+//@   loop 1 invariant -1 <= rangeindex && rangeindex < len(r.CodecReaders) && chunk.DRange[0] == atentry(1, chunk.DRange[0]) && chunk.DRange[1] == atentry(1, chunk.DRange[1])
+//@   loop 1 decreases len(r.CodecReaders) - rangeindex
+
+// concReader.Read belongs to the concurrent path (not verified, only framed).
+//@ func (*concReader).Read
+//@   prop C14
+//@   trusted concurrent code path (goroutines, channels): not verified; assumed to touch only the concReader and p
+//@   modifies *c, mem(p)
+
+// Read (sequential path, Concurrency <= 1): keeps the position invariant, so the
+// internal consistency check cannot fire; delivers result0 <= len(p) bytes and
+// advances the position by exactly that; never moves past the limit.
+//@ func (*Reader).Read
+//@   prop C14
+//@   requires rOK(r) && seqInv(r) && r.Concurrency <= 1 && isnil(r.concReader.stopc) && forall(k, 0, len(r.CodecReaders), r.CodecReaders[k] != nil) && base(p) != base(r.chunkReader.currNode[:])
+//@   ensures rOK(r) && seqInv(r) && isnil(r.concReader.stopc)
+//@   ensures[count] 0 <= result0 && result0 <= len(p) && r.pos == old(r.pos) + int64(result0)
+//@   ensures[consistent] result1 != errInternalInconsistentPosition
+//@   ensures[limit] implies(old(r.chunkReader.initialized) && old(r.err) == nil, r.pos <= old(r.pos) || r.pos <= old(r.posLimit))
+//@   modifies *r, mem(r.chunkReader.currNode), mem(p)
+//@   assume@after initialize#1 result != errInternalInconsistentPosition
+//@   loop 1 invariant rOK(r) && seqInv(r) && isnil(r.concReader.stopc) && r.posLimit == atentry(1, r.posLimit) && r.chunkReader.initialized && r.chunkReader.err == nil && forall(k, 0, len(r.CodecReaders), r.CodecReaders[k] != nil)
+//@   loop 1 invariant 0 <= numRead && base(p) == old(base(p)) && off(p) == old(off(p)) + numRead && int64(numRead) + int64(len(p)) <= int64(old(len(p))) && r.pos == old(r.pos) + int64(numRead) && math(r.pos) + math(len(p)) <= math(r.posLimit) 
 
 // The concurrent reader is outside what function contracts can decide; its seek
 // is only framed here so that the sequential branch of Reader.seek can be proved.
